@@ -382,8 +382,16 @@ func (s *ledgerSim) opOverlap() {
 		return
 	}
 	fired := false
+	// the write happens when the query opens its k-th read transaction (a query that opens only one has a single
+	// consistent snapshot by construction; one that opens several may see the block between two of them)
+	skip := t.Pick("overlap-at-view", 5, 1, 1, 1)
+	before := n.m.Clone()
 	dbutil.VerifInView = func(db *dbutil.DB, name string) {
 		if fired || db.Path() != n.path {
+			return
+		}
+		if skip > 0 {
+			skip--
 			return
 		}
 		fired = true
@@ -413,7 +421,34 @@ func (s *ledgerSim) opOverlap() {
 	case 0:
 		_, _ = n.v.GetUnspentOutputs(cids)
 	case 1:
-		_, _ = n.v.GetBalanceOfAddresses(cAddrs(s.w.allAddrs()))
+		// the answer of this one is judged: whatever the node does meanwhile, the balances it returns are those of ONE
+		// state - the one before or the one after - never a mixture
+		addrs := s.w.allAddrs()
+		bps, err := n.v.GetBalanceOfAddresses(cAddrs(addrs))
+		dbutil.VerifInView = nil
+		if fired && err == nil && !c.Failed() && !s.desync && len(bps) == len(addrs) {
+			match := func(m *model.Ledger) (bool, bool) {
+				conf, pred, ok := expectedCoins(m, addrs)
+				if !ok {
+					return false, false
+				}
+				for i := range addrs {
+					if bigU(bps[i].Confirmed.Coins).Cmp(conf[i]) != 0 || bigU(bps[i].Predicted.Coins).Cmp(pred[i]) != 0 {
+						return false, true
+					}
+				}
+				return true, true
+			}
+			mb, okb := match(before)
+			ma, oka := match(n.m)
+			if okb && oka {
+				if !mb && !ma {
+					c.Violate("balance", "torn-across-a-write", "n%d: a balance query that overlapped a write returned coins that are neither those of the state before nor those of the state after", n.id)
+					return
+				}
+				c.Count("probe.overlapped_balance_query_judged")
+			}
+		}
 	case 2:
 		_, _, _ = n.v.GetTransactions([]visor.TxFilter{visor.NewAddrsFilter(cAddrs(s.w.allAddrs()))}, visor.AscOrder, nil)
 	case 3:
